@@ -153,7 +153,7 @@ pub fn run(cfg: &Cfg) -> Stats {
     total = total.merge(s);
     total.subspace("108 identifiers x {no extension, -u-, -t-, -x-}, squared, x 4 flag pairs", n * 4, true);
     // random pairs: independent, self, and one-field-apart
-    let np = cfg.pick(150_000, 5_000_000);
+    let np = cfg.pick(1_000_000, 5_000_000);
     let strat = (gen::s_ast(), gen::s_ast(), 0u8..12);
     let s = run_strategy(&strat, cfg.seed, "c11-pairs", np, |(a, b, k), st| {
         let mut b2 = b.clone();
